@@ -36,6 +36,8 @@ SeedsClean(rec) ==
 Judge(rec) ==
   IF MustRefuse(rec) THEN (IF rec.k = "err" THEN "ok" ELSE "C02.fitted-fewer-than-three-populations")
   ELSE IF rec.k # "ok" THEN (IF SeedsClean(rec) THEN "C02.raised" ELSE "C02.grouping/seeds-straddle-populations")
+  ELSE IF rec.perm_k # "ok" THEN (IF SeedsClean(rec) THEN "C02.raised-on-the-repeated-or-reordered-events"
+                                 ELSE "C02.grouping/seeds-straddle-populations")
   ELSE IF rec.nlabels # rec.nevents THEN "C02.one-label-per-event"
   ELSE IF ~IsPartition(rec) THEN (IF SeedsClean(rec) THEN "C02.grouping-differs-from-generating-populations"
                                    ELSE "C02.grouping/seeds-straddle-populations")
